@@ -16,12 +16,35 @@ def check(run, cases=None):
                 'PSD rank-1, indefinite}; TLC evaluates e and chi^2 (as a quadratic form in the SE(2) angle atom) exactly; non-trivial = '
                 'distinct case with non-zero exact error')
     batch = []
-    for c, obs in pairs:
-        e, v1, v2 = EC.build_edge(c)
+    live = {}
+    for n_case, (c, obs) in enumerate(pairs):
+        # History dimension (as in C01): every other case re-uses the previous edge object of the same family with poses, measurement,
+        # offset overwritten IN PLACE, and asks for chi^2 before the error.
+        fk = (c['fam'], c['k'])
+        fresh = EC.build_edge(c)
+        if fk in live and n_case % 2 == 1:
+            e, v1, v2 = live[fk]
+            e.calc_jacobians()
+            v1.pose[:] = fresh[1].pose
+            v2.pose[:] = fresh[2].pose
+            e.estimate[:] = fresh[0].estimate
+            if c['fam'] == 'lm':
+                e.offset[:] = fresh[0].offset
+            e.information = fresh[0].information
+            run.notes['in_place_reuse_cases'] = run.notes.get('in_place_reuse_cases', 0) + 1
+            order = 'chi2-first'
+        else:
+            e, v1, v2 = fresh
+            order = 'error-first'
+        live[fk] = (e, v1, v2)
         key = dict(fam=c['fam'], k=c['k'], check='error')
         try:
-            err = e.calc_error()
-            chi2 = e.calc_chi2()
+            if order == 'chi2-first':
+                chi2 = e.calc_chi2()
+                err = e.calc_error()
+            else:
+                err = e.calc_error()
+                chi2 = e.calc_chi2()
         except Exception as ex:  # noqa
             run.violation(key, 'exception %r on case %r' % (ex, c), c)
             run.count(nontrivial=False)
